@@ -5050,6 +5050,11 @@ class PyCdlib:
                     if parent.ptr is not None:
                         num_bytes_to_remove += self._remove_from_ptr_size(parent.ptr)
 
+                    if parent is self._rr_moved_record:
+                        # The relocation directory is gone; forget about it so
+                        # that the next relocation creates a new one.
+                        self._rr_moved_record = dr.DirectoryRecord()
+
                 cl = child.rock_ridge.moved_to_cl_dr
                 if cl is None:
                     raise pycdlibexception.PyCdlibInternalError('Invalid child link record')
